@@ -119,7 +119,7 @@ func checkC12(p *Prog, r *Report) {
 	sts := p.storesToField(oneShell)
 	for _, st := range sts {
 		c := fnName(st.Parent()) + ":Server.oneShell"
-		if pa, ok := st.Val.(*ssa.Parameter); ok && st.Parent() == hnew && "oneShell" == pa.Name() {
+		if pa, ok := stripBoolConv(st.Val).(*ssa.Parameter); ok && st.Parent() == hnew && "oneShell" == pa.Name() {
 			rWire.OK(c, posOf(st), "set from New's oneShell parameter")
 		} else {
 			rWire.Bad(c, posOf(st), "Server.oneShell is written from %s in %s", rootsString(valueRoots(st.Val, nil)), fnName(st.Parent()))
